@@ -463,6 +463,10 @@ func (e *Engine) registerEnvIntrinsics(pkgPath string) {
 		x.timeStrs["sym:"+name] = ts
 		x.timeSyms = append(x.timeSyms, ts)
 		x.assume(Implies(Eq(s, StrC("")), Not(ts.OK)))
+		// harness timestamps denote instants within 100 years of the epoch of the symbolic
+		// clock (the native harness places them relative to the real clock, within 200 years)
+		const century = int64(100 * 365 * 24 * 3600 * 1e9)
+		x.assume(And(Le(IntC(-century), ts.NS), Le(ts.NS, IntC(century))))
 		return s
 	})
 	reg("vrtTimeParse", func(x *Exec, fr *frame, a []Value) Value {
@@ -627,6 +631,16 @@ func (x *Exec) observe(w *respWriter) Value {
 	body := Concat(w.body...)
 	f["Body"] = body
 	nXML, nForm, nJSON := 0, 0, 0
+	// a page passed through a formatting function as the format string is the page only if it has no '%'
+	fmtPage := TrueT
+	for i, p := range w.body {
+		if p.Op == "uf" && p.S == "fmtverbs" && len(p.Args) == 1 && p.Args[0].Op == "sym" {
+			if _, ok := x.renders[p.Args[0].S]; ok {
+				fmtPage = And(fmtPage, Eq(p, p.Args[0]))
+				w.body[i] = p.Args[0]
+			}
+		}
+	}
 	for _, p := range w.body {
 		if p.Op == "sym" {
 			if tk, ok := x.xmlTokens[p.S]; ok {
@@ -664,9 +678,9 @@ func (x *Exec) observe(w *respWriter) Value {
 	case len(w.body) == 1 && nForm == 1:
 		kind = "form"
 		ri := x.renders[w.body[0].S]
-		okT := ri.tmpl.pkg == "html/template" && ri.tmpl.text != nil && ri.tmpl.text.IsConst()
+		okT := ri.tmpl.text != nil && ri.tmpl.text.IsConst()
 		var action, relay, resp string
-		okTerm := TrueT
+		okTerm := fmtPage
 		if ri.tmpl.text != nil && ri.tmpl.text.IsConst() {
 			var shapeOK bool
 			action, relay, resp, shapeOK = templateShape(ri.tmpl.text.S)
@@ -716,6 +730,16 @@ func (x *Exec) observe(w *respWriter) Value {
 		f["Action"] = get(action)
 		f["RelayState"] = get(relay)
 		f["SAMLResponse"] = get(resp)
+		if ri.tmpl.pkg != "html/template" {
+			// not html/template: nothing is escaped, so the page is the fixed template
+			// only for values without markup characters (stated on one such character
+			// so that the replay shows the difference)
+			if rt, ok := f["RelayState"].(*Term); ok && rt.Sort == SStr {
+				okTerm = And(okTerm, Not(Contains(rt, StrC("\""))))
+			} else {
+				okT = false
+			}
+		}
 		if isStruct && len(sv.F) != 3 {
 			okT = false
 		}
